@@ -21,6 +21,7 @@ EXPLANATION = (
     "Semaphore construction is guarded by 'no limiter installed in this context', so one limiter governs the whole call tree; (R4) every installed "
     "limiter token is reset on all exits (finally); (R5) the limiter is installed before map item tasks are created, so they inherit it. (R6) the bounded map restores input order exactly like the unbounded one (index and result appended as an atomic pair after the item finished, results sorted by index) — 'same result as the unlimited run'. (R7) the limit never decides which ready nodes belong to a superstep: the list handed to the superstep is exactly the scheduler's result."
     " R3 also requires that no code path is selected by a particular value of the limit (it is tested for presence and sizes the limiter only)."
+    " R6 also requires that in raise mode every 'raise <item>.error' of the async map scans the input-ordered result list, so the bounded map raises the same (lowest-index) failure as the unbounded one whatever the completion order."
 )
 NOT_DECIDED = "Equality with the unlimited run and fairness/starvation of the asyncio scheduler; that sync routing functions (which take no permit) are counted by an observer as executing bodies."
 
